@@ -283,6 +283,10 @@ func (prop) Generate(rng *core.Rand, tier string, emit func(string)) {
 			emit(genKey(prx))
 			continue
 		}
+		if k%120 == 7 {
+			emit(genAh(prx))
+			continue
+		}
 		if k%12 == 2 {
 			if (k/12)%2 == 0 {
 				emit(genCf(prx))
